@@ -1,6 +1,7 @@
 """C03 - resume: (a) step_next of the real util.sh (bash + real robsd-step) on generated step files vs the model and the
 literal specification; (b) end to end: canvas -d killed (SIGKILL of its whole session) at a chosen point between two
-step-file writes, then canvas -d -r <dir>: resume point, executed steps and final records vs the model."""
+step-file writes, then canvas -d -r <dir>: resume point, executed steps and final records vs the model; (c) the boundary
+for parallel steps; (d) canvas -r on a step file that cannot be read (damaged-resume lane)."""
 import hashlib, json, glob, os, subprocess, time, shutil, tempfile
 from concurrent.futures import ThreadPoolExecutor
 import common, orch_env
@@ -11,7 +12,8 @@ TRUSTED = orch_env.SHIMS_USED + [
     'records when an invocation is resumed at step 1 with other -s options); parallel steps are outside the property - the boundary is the theorem '
     'C03_parallel_resume_skips_inflight, replayed on the real canvas in every run',
     'the abstract step file (rows in ascending id order) is what C01 proves robsd-step maintains; a crash INSIDE one robsd-step -W is outside the quantifier',
-    'crash = SIGKILL of the orchestrator\'s whole session at a point observed through the probe trace / the step file']
+    'crash = SIGKILL of the orchestrator\'s whole session at a point observed through the probe trace / the step file',
+    'a -s option given to a resumed invocation whose resume point is >= 2 is ignored by the entry scripts: C04 lane skip-on-resume (signature command-line-skip-ignored-on-resume)']
 
 NAMES = ['a', 'b', 'c', 'd', 'e', 'f', 'g', 'end', 'x/y', 'cvs']
 
@@ -64,9 +66,16 @@ def sh_step_next(impl, work, idx, rows):
     return r.returncode, r.stdout.decode().strip(), r.stderr.decode()[-200:]
 
 
+def corpus_files(pattern):
+    d = os.path.join(common.VERIF, 'corpus', 'C03')
+    if not os.path.isdir(d):
+        raise common.BuildFailure('corpus directory %s is missing' % d)
+    return sorted(glob.glob(os.path.join(d, pattern)))
+
+
 def part_a(ctx, impl, drv, res, n):
     work = ctx.mkscratch('c03a')
-    cases = [json.load(open(p)) for p in sorted(glob.glob(os.path.join(common.VERIF, 'corpus', 'C03', 'rows-*.json')))]
+    cases = [json.load(open(p)) for p in corpus_files('rows-*.json')]
     cases += [gen_rows(ctx.rng) for _ in range(n)]
     with ThreadPoolExecutor(16) as ex:
         obs = list(ex.map(lambda ic: sh_step_next(impl, work, ic[0], ic[1]), enumerate(cases)))
@@ -96,7 +105,7 @@ def gen_e2e(rng):
         j = rng.randrange(1, n)
         steps[j]['name'] = steps[rng.randrange(0, j)]['name']
     if rng.random() < 0.45:
-        steps[rng.randrange(n)]['exit'] = rng.choice([1, 2, 124])
+        steps[rng.randrange(n)]['exit'] = rng.choice([1, 2, 124, 139])      # 139: the probe dies of SIGSEGV
         for s in steps:      # exit codes go with the name (the probe is told the code through a gate named after the step)
             s['exit'] = max(t['exit'] for t in steps if t['name'] == s['name'])
     dupnames = {s['name'] for s in steps if sum(1 for t in steps if t['name'] == s['name']) > 1}
@@ -234,15 +243,19 @@ def e2e_case(ctx, impl, case):
 
 
 def part_b(ctx, impl, drv, res, n):
-    cases = [json.load(open(p)) for p in sorted(glob.glob(os.path.join(common.VERIF, 'corpus', 'C03', 'e2e-*.json')))]
+    cases = [json.load(open(p)) for p in corpus_files('e2e-*.json')]
+    if not cases:
+        raise common.BuildFailure('corpus/C03 holds no e2e-*.json case')
     cases += [gen_e2e(ctx.rng) for _ in range(n)]
     with ThreadPoolExecutor(8) as ex:
         obs = list(ex.map(lambda c: e2e_case(ctx, impl, c), cases))
     for case, ob in zip(cases, obs):
-        res.evaluations += 1
+        # an evaluation is a VERDICT: the invariant check on the files of a case, and every judged crash+resume pair below
         res.count('crash=%s' % case['crash'][0])
         if ob.get('nobuilddir'):
+            res.count('no verdict: killed before the build directory existed')
             continue
+        res.evaluations += 1
         names = [s['name'] for s in case['steps']] + ['end']
         dup = len(set(names)) != len(names)
         # invariant k_skip0 of the files the orchestrator leaves (C03_orchestrator_files_are_good; hypothesis of C05's status
@@ -260,7 +273,10 @@ def part_b(ctx, impl, drv, res, n):
         for k in range(1, len(ob['phases'])):
             prev, cur = ob['phases'][k - 1], ob['phases'][k]
             if not prev['crashed']:
+                # the crash point was never reached (the invocation ended by itself first): nothing to resume, nothing judged
+                res.count('no verdict: crash point of phase %d not reached' % (k - 1))
                 break
+            res.evaluations += 1
             codes = phase_codes(case, k)
             stoks = [str(len(names))]
             for i, nme in enumerate(names, 1):
@@ -277,6 +293,8 @@ def part_b(ctx, impl, drv, res, n):
                 res.oracle_failures.append({'case': case, 'signature': 'resume-point-wrong',
                                             'what': 'canvas -r resumed at %s, the property says %s for %s' % (got, spec_next, rows)})
             if got == '-':
+                # canvas -r answered no resume point; model and specification were compared with that answer just above
+                res.count('resume refused (no resume point)')
                 continue
             ok = common.run_driver(drv, [' '.join(['okresume', got] + row_toks(rows))])[0]
             executed = [t[1] for t in cur['trace'] if t[0] == 'start']
@@ -407,6 +425,67 @@ def part_c(ctx, impl, drv, res):
                                       'model': [model_next, want_next, want_rerun], 'impl': [got, ob['executed'], rows]})
 
 
+SIG_DAMAGED = 'resume-on-damaged-step-file-deletes-build'
+
+
+def damaged_resume_case(ctx, impl, case):
+    """a sequential invocation whose step b fails; its step file is then damaged the way a refused write leaves it (C01 known
+    finding refused-write-damages-file: the first k bytes of the new content) and the operator runs canvas -d -r <dir>"""
+    work = tempfile.mkdtemp(dir=ctx.mkscratch('c03d'))
+    cv = orch_env.Canvas(ctx, impl, work, [{'name': 'a'}, {'name': 'b'}], ncpu=1)
+    ob = {}
+    try:
+        crashed, rc, out = run_until_crash(cv, ['-d'], {'steps': [{'name': 'a', 'exit': 0}, {'name': 'b', 'exit': 1}]}, ['never'])
+        bds = cv.builddirs()
+        if not bds or rc == 0:
+            ob['error'] = 'the first invocation did not fail at b (rc %s)' % rc
+            return ob
+        bd = bds[0]
+        sf = os.path.join(bd, 'step.csv')
+        data = open(sf, 'rb').read()
+        keep = {'empty': 0, 'header': 20, 'row': len(data) - 25, 'intact': len(data)}[case['damage']]
+        open(sf, 'wb').write(data[:keep])
+        ob['content_before'] = sorted(os.listdir(bd))
+        cv.close_gates()
+        pre = len(cv.trace())
+        crashed2, rc2, out2 = run_until_crash(cv, ['-d', '-r', bd], {'steps': [{'name': 'a', 'exit': 0}, {'name': 'b', 'exit': 0}]}, ['never'])
+        ob.update({'rc': rc2, 'dir_exists': os.path.isdir(bd), 'content_after': sorted(os.listdir(bd)) if os.path.isdir(bd) else None,
+                   'executed': [t[1] for t in cv.trace()[pre:] if t[0] == 'start'], 'tail': out2[-300:],
+                   'refused': 'cannot find next step' in out2})
+        return ob
+    finally:
+        cv.reap_strays()
+        shutil.rmtree(work, ignore_errors=True)
+
+
+def part_d(ctx, impl, res):
+    """"if nothing but skipped steps is recorded resuming fails" - FAILS, it does not destroy: after a refused resume the build
+    directory must still be there with its logs and report (C03_failed_resume_removes_the_build_directory is what happens)"""
+    cases = [json.load(open(p)) for p in corpus_files('damaged-*.json')]
+    have = {c['damage'] for c in cases}
+    cases += [{'lane': 'damaged-resume', 'damage': d} for d in ('empty', 'header', 'row', 'intact') if d not in have]
+    for case in cases:
+        ob = damaged_resume_case(ctx, impl, case)
+        if ob.get('error'):
+            res.tie_errors.append('damaged-resume lane: ' + ob['error'])
+            continue
+        res.evaluations += 1
+        res.nontrivial.add('damaged:' + case['damage'])
+        res.count('lane damaged-resume: %s' % case['damage'])
+        if case['damage'] == 'intact':
+            # control: the undamaged file resumes at b and runs it
+            if ob['rc'] != 0 or ob['executed'] != ['b'] or not ob['dir_exists']:
+                res.oracle_failures.append({'case': case, 'signature': 'resume-reexecutes-or-skips', 'what': json.dumps(ob)[:600]})
+        elif not ob['dir_exists']:
+            # pinned by the case (a step file robsd-step cannot read) and the observation (the resume was refused by step_next,
+            # nothing ran, and the directory that held logs and report is gone)
+            narrow = ob['refused'] and not ob['executed'] and ob['rc'] != 0
+            res.oracle_failures.append({'case': case, 'signature': SIG_DAMAGED if narrow else 'build-directory-removed',
+                                        'what': 'step file %s; canvas -r: %r; the build directory (%s) was removed' % (case['damage'], ob['tail'].strip().splitlines()[:3], ob['content_before'])})
+        elif ob['rc'] == 0 or ob['executed']:
+            res.oracle_failures.append({'case': case, 'signature': 'resumed-from-unreadable-step-file', 'what': json.dumps(ob)[:600]})
+
+
 def run(ctx, n=None):
     res = common.Result()
     res.rule = ('(a) step files with 0-8 rows mixing skipped / succeeded / failed / in-flight (-1) records, id gaps, with or without end, through the real '
@@ -414,7 +493,8 @@ def run(ctx, n=None):
                 'before the first record / while a step runs / right after a completion record, then canvas -d -r (optionally killed again and resumed again); '
                 'a step name may repeat, and the exit codes of the resumed invocations may differ from those of the first one (repaired and resumed); '
                 'what the resumed invocation really started is judged by the extracted oracle of C03_resumed_run_executes; (c) the boundary theorem for '
-                'parallel steps replayed on the real canvas (in-flight parallel step below / above a completed one); '
+                'parallel steps replayed on the real canvas (in-flight parallel step below / above a completed one); (d) canvas -r on a step file '
+                'emptied / cut in the header / cut inside a row (and intact, as the control); '
                 'non-trivial = (a) both skipped and non-skipped rows present, (b) every crash+resume pair; distinct by content')
     impl = ctx.build_impl()
     drv = ctx.build_driver('rs', withz=True)
@@ -422,6 +502,7 @@ def run(ctx, n=None):
     part_a(ctx, impl, drv, res, n or ctx.budget(400, 10000))
     part_b(ctx, impl, drv, res, (n // 20 if n else ctx.budget(24, 400)))
     part_c(ctx, impl, drv, res)
+    part_d(ctx, impl, res)
     res.traces_validated = res.evaluations
     return res
 
